@@ -1,9 +1,15 @@
-use svgdx::Result;
+use std::process::ExitCode;
 
 use svgdx::cli::{get_config, run};
 
-fn main() -> Result<()> {
-    run(get_config()?)?;
-
-    Ok(())
+fn main() -> ExitCode {
+    // Report failures through `Display`: the `Debug` form dumps internal maps,
+    // whose iteration order differs from run to run.
+    match get_config().and_then(run) {
+        Ok(()) => ExitCode::SUCCESS,
+        Err(e) => {
+            eprintln!("Error: {e}");
+            ExitCode::FAILURE
+        }
+    }
 }
